@@ -36,6 +36,9 @@ ASSUMPTIONS = [
     "on the tree sympy produced; a tree with another node type may be refused at either stage; if it is translated "
     "anyway it is a violation only when the value differs (infinities/NaN are outside the comparison; an undefined "
     "function named like a dialect entry, e.g. Function('sin')(x), has no value: counted, no verdict)",
+    "symbols declared positive get positive values (sympy simplifies under that assumption, e.g. sqrt(-p) -> I*sqrt(p)); "
+    "a value computed with complex arithmetic that lands on the negative real axis has no usable fractional power / "
+    "logarithm (Python complex numbers carry signed zeros): such assignments give no verdict",
     "a supported tree that is undefined at every assignment (e.g. a literal division by zero built with "
     "evaluate=False) may be refused",
     "sort keys: only pairs of names with the same non-digit skeleton are judged (the property speaks about the "
@@ -55,6 +58,7 @@ TOL = 1e-9
 N_ASSIGN = 5
 
 _SALT = 0
+_POS = set()  # names of the symbols the current case declares positive
 _KEYS = {"natural_key": [], "natural_key_revlex": []}
 _LIB = {}
 
@@ -116,8 +120,17 @@ def _num(st, x):
     raise Unknown(type(x).__name__)
 
 
+def _on_cut(z):
+    """a value that was computed with complex arithmetic and lies on (or within rounding of) the negative
+    real axis: fractional powers / logarithms of it depend on the sign of a zero or of rounding noise
+    (Python complex numbers have signed zeros, the reference has not), so it has no usable value"""
+    return isinstance(z, MP.mpc) and MP.re(z) < 0 and abs(MP.im(z)) <= 1e-9 * abs(z)
+
+
 def _pow(st, b, w):
     try:
+        if _on_cut(b) and not (MP.im(w) == 0 and MP.re(w) == MP.floor(MP.re(w))):
+            raise Skip("branch cut")
         if b == 0:
             if w == 0:
                 return _fin(st, MP.mpf(1))
@@ -148,7 +161,15 @@ def _trig(fn):
 def _log(st, z):
     if z == 0:
         raise Skip("log 0")
+    if _on_cut(z):
+        raise Skip("branch cut")
     return MP.log(z)
+
+
+def _sqrt(st, z):
+    if _on_cut(z):
+        raise Skip("branch cut")
+    return MP.sqrt(z)
 
 
 FUNCS = {
@@ -156,7 +177,7 @@ FUNCS = {
     # not in the supported grammar; only used to value trees that were passed through
     "sinh": _trig(lambda z: MP.sinh(z)), "cosh": _trig(lambda z: MP.cosh(z)), "tanh": _trig(lambda z: MP.tanh(z)),
     "log": _log, "Abs": lambda st, z: abs(z), "atan": lambda st, z: MP.atan(z), "conjugate": lambda st, z: MP.conj(z),
-    "sqrt": lambda st, z: MP.sqrt(z),
+    "sqrt": _sqrt,
 }
 
 
@@ -266,7 +287,19 @@ def value_for(name, k):
         v = sgn * (10 + 990 * u)
     else:
         v = sgn * (0.5 + 2.5 * u)
+    if name in _POS:
+        v = abs(v)  # an assignment has to respect the assumptions sympy simplified under
     return MP.mpf(v)
+
+
+def _declare(e):
+    """remember which symbol names the expression declares positive"""
+    try:
+        for s in e.free_symbols:
+            if s.is_positive:
+                _POS.add(s.name)
+    except Exception:
+        pass
 
 
 def reference_values(eval_fn, obj, n=N_ASSIGN):
@@ -279,7 +312,7 @@ def reference_values(eval_fn, obj, n=N_ASSIGN):
             clean = eval_fn(obj, env, st)
             scale = st.scale
             stable = True
-            for j in range(2):
+            for j in range(3):
                 sn = St(noisy=random.Random(1000 * k + j), round_leaves=True)
                 noisy = eval_fn(obj, env, sn)
                 if abs(noisy - clean) > 1e-11 * abs(clean) + 1e-27 * scale:
@@ -306,7 +339,7 @@ def compare_values(ref, eval_fn, obj):
             got = eval_fn(obj, env, st)
         except Skip as s:
             # the reference is defined and well conditioned here, the result is not
-            if str(s) in ("overflow", "power out of range", "exp out of range", "trig out of range"):
+            if str(s) in ("overflow", "power out of range", "exp out of range", "trig out of range", "branch cut"):
                 continue
             return "differ", f"assignment {k}: expected {MP.nstr(r[1], 15)}, result undefined ({s})"
         judged += 1
@@ -406,6 +439,7 @@ def _post_from_sympy(mon, call):
     if not _is_sympy_expr(e):
         mon.out_of_domain(name)  # tuples of arguments, native numbers
         return
+    _declare(e)
     bad = unsupported_nodes(e)
     if call.exc is not None:
         if bad:
@@ -850,6 +884,7 @@ def _roundtrip(ctx, e, label):
     from orquestra.quantum.circuits.symbolic.sympy_expressions import SYMPY_DIALECT, expression_from_sympy
     from orquestra.quantum.circuits.symbolic.translations import translate_expression
 
+    _declare(e)
     bad = unsupported_nodes(e)
     stage = "expression_from_sympy"
     try:
@@ -902,6 +937,7 @@ def run_case(ctx):
     rng = ctx.rng
     cls = ctx.cls
     _SALT = rng.randrange(1 << 30)
+    _POS.clear()
     _KEYS["natural_key"].clear()
     _KEYS["natural_key_revlex"].clear()
     maxdepth = 6 if ctx.quick else 8
@@ -970,6 +1006,8 @@ def run_case(ctx):
         es = tuple(rand_tree(rng, rng.randint(0, 3)) for _ in range(n))
         ctx.describe(f"tuple {[srepr_short(e, 120) for e in es]!r}"[:600], n >= 2 and any(size_of(e) >= 4 for e in es))
         bad = [b for e in es for b in unsupported_nodes(e)]
+        for e in es:
+            _declare(e)
         try:
             ts = expression_from_sympy(es)
             ok = isinstance(ts, tuple) and len(ts) == n
